@@ -560,10 +560,8 @@ func (e *Exec) stmt(st *State, s ast.Stmt) {
 		e.deferStmt(st, s)
 	case *ast.GoStmt:
 		// A goroutine is not executed: its effects are outside the sequential model.
-		e.note("go statement dropped at " + e.posStr(s.Pos()))
-		for _, a := range s.Call.Args {
-			e.ev(st, a)
-		}
+		e.note("go statement not executed (call-site clauses are still checked) at " + e.posStr(s.Pos()))
+		e.goSiteChecks(st, s.Call)
 	case *ast.EmptyStmt:
 	case *ast.SendStmt:
 		e.sendsiteChecks(st, s, e.ev(st, s.Value))
@@ -1711,6 +1709,11 @@ func (e *Exec) rangeStmt(st *State, s *ast.RangeStmt, label string) {
 	if !cont.dead {
 		cont.vars[idx] = Val{T: Add(cont.vars[idx].T, IntLit(1)), GT: types.Typ[types.Int]}
 		e.checkInvs(cont, li, "preserve", env)
+	}
+	// ghost `completedrange`: the number of elements of the range loop that last ran to completion on this
+	// path (so a later clause can say "the loop over all n elements was completed": counter == completedrange)
+	if tc := e.frames[0].contract; tc != nil && tc.usesGhost("completedrange") && !exitSt.dead {
+		exitSt.ghosts["g:completedrange"] = Val{T: n, GT: types.Typ[types.Int]}
 	}
 	outs := append([]*State{exitSt}, jf.breaks...)
 	e.setState(st, e.merge(outs...))
